@@ -3,6 +3,7 @@ package main
 import (
 	"fmt"
 	"go/types"
+	"sort"
 	"strings"
 
 	"golang.org/x/tools/go/ssa"
@@ -75,6 +76,7 @@ type Verifier struct {
 	modset []modLoc
 	curTop *ssa.Function
 	frameGuard *Term
+	localCells []*Term // captured-variable cells of the closure under verification (locals of the enclosing function)
 }
 
 func (v *Verifier) note(s string) { v.notes[s]++ }
@@ -212,6 +214,26 @@ func (v *Verifier) applyGlobalHavoc(st *State, h *HeapArr, l modLoc) {
 		switch l.kind {
 		case "userdata":
 			keep = tOr(v.internalField(p, h.Key), mk("Bool", "zz_isnew", p))
+			for _, c := range v.localCells {
+				keep = tOr(keep, mk("Bool", "zz_under", p, c))
+			}
+			// cells whose Go type is defined by the verified module (e.g. *PathBuilder) are zog's own objects
+			if v.D.seen["fun:zz_celltype"] {
+				var tys []*Term
+				for ts, id := range v.D.tids {
+					if ty := v.D.tidTy[ts]; ty != nil {
+						if n, ok := ty.(*types.Named); ok && n.Obj().Pkg() != nil && strings.HasPrefix(n.Obj().Pkg().Path(), v.P.ModPath) {
+							tys = append(tys, tEq(mk("Int", "zz_celltype", p), intLit(int64(id))))
+						}
+					}
+				}
+				sort.Slice(tys, func(i, j int) bool { return tys[i].String() < tys[j].String() })
+				keep = tOr(keep, tOr(tys...))
+			}
+			// elements of backing arrays that zog marked as its own (ghost map IARR, e.g. a path builder's segments)
+			if ia, ok := st.heap["g_IARR"]; ok {
+				keep = tOr(keep, tAnd(mk("Bool", "(_ is zz_elem)", p), mk("Bool", "select", ia.arrayTerm(), mk("Ptr", "zz_elem_base", p))))
+			}
 		case "under":
 			keep = tNot(mk("Bool", "zz_under", p, l.base))
 		}
@@ -224,7 +246,7 @@ func (v *Verifier) applyGlobalHavoc(st *State, h *HeapArr, l modLoc) {
 			return 1
 		case "userdata":
 			// locals and objects allocated by the verified function are not user data; fields of module types neither
-			if rootOf(a).Op == "zz_new" {
+			if r := rootOf(a); r.Op == "zz_new" || strings.HasPrefix(r.Op, "zz_fv_") {
 				return 0
 			}
 			f := v.internalField(a, h.Key)
@@ -300,7 +322,7 @@ func (v *Verifier) load(st *State, addr *Term, t types.Type) *Term {
 		return v.Y.fresh(v.D, "arr", s)
 	}
 	h := v.heapFor(st, s)
-	v.cellFact(addr, t)
+	v.cellFact(st, addr, t)
 	r := h.read(addr)
 	if r.Op == "select" {
 		v.addTypeFacts(st, r, t)
@@ -325,24 +347,19 @@ func (v *Verifier) store(st *State, addr *Term, t types.Type, val *Term) {
 		return
 	}
 	h := v.heapFor(st, s)
-	v.cellFact(addr, t)
+	v.cellFact(st, addr, t)
 	h.write(addr, val)
 	v.recordWrite(st, h.Key, addr)
 }
 
 // cellFact records Go's type safety for one memory cell: the cell at addr holds a value of Go type t
 // (zz_celltype). Two pointers to cells of different Go types can therefore never alias.
-func (v *Verifier) cellFact(addr *Term, t types.Type) {
+func (v *Verifier) cellFact(st *State, addr *Term, t types.Type) {
 	if rootOf(addr).Op == "zz_new" || addr.Op == "zz_nilptr" || mentionsBound(addr) {
 		return
 	}
-	key := "cell:" + addr.String()
-	if v.factSeen[key+"|"+typeStr(t)] {
-		return
-	}
-	v.factSeen[key+"|"+typeStr(t)] = true
 	v.D.declFun("zz_celltype", []string{"Ptr"}, "Int")
-	v.D.facts = append(v.D.facts, tEq(mk("Int", "zz_celltype", addr), v.D.typeID(t)))
+	st.assume(tEq(mk("Int", "zz_celltype", addr), v.D.typeID(t)))
 }
 
 // leaves enumerates (address, sort) for every scalar leaf of a value of type t at addr.
